@@ -556,3 +556,119 @@ Proof.
   - intros st0 _. apply skip_progress.
 Qed.
 End BodyLoop.
+
+(* ---------------------------------------------------------------- error stickiness without any side condition *)
+Lemma repeated_sticky_any k f : forall fuel st vs, err st <> None -> err (fst (dec_repeated fuel k f st vs)) <> None.
+Proof.
+  induction fuel as [|fuel IH]; intros st vs He; [exact He|]. cbn [dec_repeated].
+  destruct (negb (f =? pf st)); [exact He|].
+  destruct (is_scalar_wire k && (pw st =? BytesType)).
+  - destruct (consume_bytes (buf st)) as [packed n]. destruct (n <? 0); [apply fail_err|].
+    destruct (dec_packed (S (length packed)) k packed vs) as [vs' ok]. destruct ok; [|apply fail_err].
+    apply IH, next_field_err_sticky, He.
+  - destruct (pw st =? wire_of k); [|apply fail_err].
+    destruct (dec_payload k (buf st)) as [x n]. destruct (n <? 0); [apply fail_err|]. apply IH, next_field_err_sticky, He.
+Qed.
+Lemma repmsg_sticky_any {T} f (fn : @body T) : sticky_fn fn -> forall fuel st t, err st <> None -> err (fst (dec_repeated_message fuel f fn st t)) <> None.
+Proof.
+  intros Hfn. induction fuel as [|fuel IH]; intros st t He; [exact He|]. cbn [dec_repeated_message].
+  destruct (negb (f =? pf st)); [exact He|]. destruct (negb (pw st =? BytesType)); [apply fail_err|].
+  destruct (consume_bytes (buf st)) as [m n]. destruct (n <? 0); [apply fail_err|].
+  assert (Hp : err (push_state m st) <> None) by (unfold push_state; apply next_field_err_sticky; exact He).
+  pose proof (Hfn (push_state m st) t Hp) as H. destruct (fn (push_state m st) t) as [inner' t']. cbn [fst] in H.
+  apply IH, next_field_err_sticky. cbn [pop_state err]. exact H.
+Qed.
+Lemma while_sticky_any num step : (forall st l, err st <> None -> err (fst (step st l)) <> None) ->
+  forall fuel st l, err st <> None -> err (fst (while_pending fuel num step st l)) <> None.
+Proof.
+  intros Hs. induction fuel as [|fuel IH]; intros st l He; [exact He|]. cbn [while_pending].
+  destruct (pf st =? num); [|exact He]. pose proof (Hs st l He) as H. destruct (step st l) as [st' l']. apply IH, H.
+Qed.
+
+Section StickyAny.
+Variable progs : list prog.
+Variable F : nat.
+Variable rec : nat -> @body msgv.
+Hypothesis rec_sticky : forall idx, sticky_fn (rec idx).
+
+Lemma cast_elem_sticky_any c f st v : err st <> None -> err (fst (dec_cast_elem F c f st v)) <> None.
+Proof.
+  intros He. destruct c as [| |kk vk]; cbn [dec_cast_elem].
+  - pose proof (timestamp_sticky F f st (match v with VTime s n => (s, n) | _ => (zero_time_sec, 0) end) He) as H.
+    destruct (dec_timestamp F f st _) as [st' [s n]]. exact H.
+  - pose proof (duration_sticky F f st (match v with VDur d => d | _ => 0 end) He) as H.
+    destruct (dec_duration F f st _) as [st' d]. exact H.
+  - unfold dec_map.
+    match goal with |- context[dec_repeated_message F f ?fn st ?l] =>
+      assert (Hfn : sticky_fn fn);
+      [|pose proof (repmsg_sticky_any f fn Hfn F st l He) as H; destruct (dec_repeated_message F f fn st l) as [st' l']; exact H] end.
+    intros c0 m0 Hc.
+    match goal with |- context[Dec.loop F ?body c0 ?z] =>
+      assert (Hb : sticky_fn body);
+      [|pose proof (loop_sticky body Hb F c0 z Hc) as H; destruct (Dec.loop F body c0 z) as [c' [k1 v1]]; exact H] end.
+    intros c1 kv Hc1.
+    pose proof (single_sticky kk 1 c1 (fst kv) Hc1) as H1. destruct (dec_single kk 1 c1 (fst kv)) as [c2 k2]. cbn [fst] in H1.
+    pose proof (single_sticky vk 2 c2 (snd kv) H1) as H2. destruct (dec_single vk 2 c2 (snd kv)) as [c3 v3]. exact H2.
+Qed.
+
+Lemma dec_op_sticky_any op : sticky_fn (dec_op progs F rec op).
+Proof.
+  intros st t He. unfold dec_op. destruct (op_match op st); [|exact He].
+  destruct op; cbn [dec_op_run].
+  - destruct rep; [|destruct ptr].
+    + pose proof (repeated_sticky_any k num F st (as_list (slot_get (fst t) slot)) He) as H. destruct (dec_repeated F k num st _) as [st' l]. exact H.
+    + destruct (pf st =? num); [|exact He]. pose proof (single_sticky k num st (zero_scalar k) He) as H. destruct (dec_single k num st _) as [st' x]. exact H.
+    + pose proof (single_sticky k num st (slot_get (fst t) slot) He) as H. destruct (dec_single k num st _) as [st' x]. exact H.
+  - match goal with |- context[dec_message F num ?fn st ?v] =>
+      assert (Hfn : sticky_fn fn);
+      [|pose proof (message_sticky F num fn Hfn st v He) as H; destruct (dec_message F num fn st v) as [st' x]; exact H] end.
+    intros c v Hc. cbv beta zeta. match goal with |- context[rec idx c ?m0] => pose proof (rec_sticky idx c m0 Hc) as H; destruct (rec idx c m0) as [c' m']; exact H end.
+  - match goal with |- context[dec_repeated_message F num ?fn st ?v] =>
+      assert (Hfn : sticky_fn fn);
+      [|pose proof (repmsg_sticky_any num fn Hfn F st v He) as H; destruct (dec_repeated_message F num fn st v) as [st' x]; exact H] end.
+    intros c l Hc. pose proof (loop_sticky (rec idx) (rec_sticky idx) F c (zero_msgv progs idx) Hc) as H. destruct (Dec.loop F (rec idx) c _) as [c' m']. exact H.
+  - match goal with |- context[dec_message F num ?fn st ?v] =>
+      assert (Hfn : sticky_fn fn);
+      [|pose proof (message_sticky F num fn Hfn st v He) as H; destruct (dec_message F num fn st v) as [st' x]; exact H] end.
+    intros c v Hc. cbv beta zeta. match goal with |- context[rec idx c ?m0] => pose proof (rec_sticky idx c m0 Hc) as H; destruct (rec idx c m0) as [c' m']; exact H end.
+  - match goal with |- context[dec_repeated_message F num ?fn st ?v] =>
+      assert (Hfn : sticky_fn fn);
+      [|pose proof (repmsg_sticky_any num fn Hfn F st v He) as H; destruct (dec_repeated_message F num fn st v) as [st' x]; exact H] end.
+    intros c l Hc. pose proof (loop_sticky (rec idx) (rec_sticky idx) F c (zero_msgv progs idx) Hc) as H. destruct (Dec.loop F (rec idx) c _) as [c' m']. exact H.
+  - pose proof (single_sticky KInt32 num st (slot_get (fst t) slot) He) as H. destruct (dec_single KInt32 num st _) as [st' x]. exact H.
+  - unfold dec_repeated_enum. pose proof (repeated_sticky_any KInt32 num F st (as_list (slot_get (fst t) slot)) He) as H. destruct (dec_repeated F KInt32 num st _) as [st' l]. exact H.
+  - destruct rep, ptr.
+    + match goal with |- context[while_pending F num ?stp st ?l0] =>
+        assert (S3 : forall st1 l1, err st1 <> None -> err (fst (stp st1 l1)) <> None);
+        [|pose proof (while_sticky_any num stp S3 F st l0 He) as H; destruct (while_pending F num stp st l0) as [st' x]; exact H] end.
+      intros st1 l1 H1. pose proof (cast_elem_sticky_any c num st1 (cast_zero c) H1) as H. destruct (dec_cast_elem F c num st1 (cast_zero c)). exact H.
+    + match goal with |- context[while_pending F num ?stp st ?l0] =>
+        assert (S3 : forall st1 l1, err st1 <> None -> err (fst (stp st1 l1)) <> None);
+        [|pose proof (while_sticky_any num stp S3 F st l0 He) as H; destruct (while_pending F num stp st l0) as [st' x]; exact H] end.
+      intros st1 l1 H1. pose proof (cast_elem_sticky_any c num st1 (cast_zero c) H1) as H. destruct (dec_cast_elem F c num st1 (cast_zero c)). exact H.
+    + destruct (pf st =? num); [|exact He].
+      match goal with |- context[dec_cast_elem F c num st ?v] => pose proof (cast_elem_sticky_any c num st v He) as H; destruct (dec_cast_elem F c num st v) as [st' x]; exact H end.
+    + match goal with |- context[dec_cast_elem F c num st ?v] => pose proof (cast_elem_sticky_any c num st v He) as H; destruct (dec_cast_elem F c num st v) as [st' x]; exact H end.
+  - apply fail_err.
+  - destruct (pf st =? num); [|exact He].
+    destruct op; cbn [fst]; try apply fail_err.
+    + match goal with |- context[dec_single k num st ?v] => pose proof (single_sticky k num st v He) as H; destruct (dec_single k num st v) as [st' x]; exact H end.
+    + match goal with |- context[dec_message F num ?fn st ?v] =>
+        assert (Hfn : sticky_fn fn);
+        [|pose proof (message_sticky F num fn Hfn st v He) as H; destruct (dec_message F num fn st v) as [st' x]; exact H] end.
+      intros c v Hc. cbv beta zeta. match goal with |- context[rec idx c ?m0] => pose proof (rec_sticky idx c m0 Hc) as H; destruct (rec idx c m0) as [c' m']; exact H end.
+    + match goal with |- context[dec_single KInt32 num st ?v] => pose proof (single_sticky KInt32 num st v He) as H; destruct (dec_single KInt32 num st v) as [st' x]; exact H end.
+    + match goal with |- context[dec_cast_elem F c num st ?v] => pose proof (cast_elem_sticky_any c num st v He) as H; destruct (dec_cast_elem F c num st v) as [st' x]; exact H end.
+  - destruct (unrec_facts mask F st (snd t)) as [_ [_ [I3 _]]]. destruct (dec_unrecognized F mask st (snd t)) as [st' out]. exact (I3 He).
+Qed.
+End StickyAny.
+
+(* dec.err is never cleared by any Decode method, of any program list *)
+Lemma dec_msg_sticky_any progs F : forall fuel idx, sticky_fn (dec_msg fuel progs F idx).
+Proof.
+  induction fuel as [|fuel IH]; intros idx st t He; [apply fail_err|]. cbn [dec_msg].
+  destruct (nth_error progs idx) as [p|]; [|apply fail_err].
+  unfold dec_body. revert st t He. induction (p_dec p) as [|op ops IHo]; intros st t He; [exact He|]. cbn [fold_left fst snd].
+  pose proof (dec_op_sticky_any progs F (dec_msg fuel progs F) IH op st t He) as H1.
+  destruct (dec_op progs F (dec_msg fuel progs F) op st t) as [st1 t1]. apply IHo, H1.
+Qed.
